@@ -33,18 +33,17 @@ Qed.
 Lemma ptab_eqb_refl : forall a, ptab_eqb a a = true.
 Proof. intros [n s al]; unfold ptab_eqb; cbn. now rewrite String.eqb_refl, !ostr_eqb_refl. Qed.
 
-Lemma tbl_eqb_eq : forall a b, tbl_eqb a b = true -> a = b.
-Proof.
-  intros [p|n|n] [q|m|m]; cbn; try discriminate; intro H.
-  - apply ptab_eqb_eq in H. congruence.
-  - apply String.eqb_eq in H. congruence.
-  - apply String.eqb_eq in H. congruence.
-Qed.
 Lemma tbl_eqb_refl : forall a, tbl_eqb a a = true.
-Proof. intros [p|n|n]; cbn; auto using ptab_eqb_refl, String.eqb_refl. Qed.
+Proof. intros [p|n|n src u]; cbn; auto using ptab_eqb_refl, String.eqb_refl. now rewrite ostr_eqb_refl, String.eqb_refl. Qed.
+(* the same source is, a fortiori, the same element of a set; for tables and WITH queries the two notions agree *)
+Lemma tbl_ident_eqb : forall a b, tbl_ident a b = true -> tbl_eqb a b = true.
+Proof.
+  intros [p|n|n s u] [q|m|m t v]; cbn; auto. intro H.
+  apply andb_prop in H. destruct H as [H _]. exact H.
+Qed.
+Lemma tbl_ident_nonsub : forall a b, (match a with TSub _ _ _ => false | _ => true end) = true -> tbl_ident a b = tbl_eqb a b.
+Proof. intros [p|n|n s u] b H; try discriminate; destruct b; reflexivity. Qed.
 
-Lemma tref_eqb_eq : forall a b, tref_eqb a b = true -> a = b.
-Proof. intros [a|] [b|]; cbn; try discriminate; auto. intro H. apply tbl_eqb_eq in H. congruence. Qed.
 Lemma tref_eqb_refl : forall a, tref_eqb a a = true.
 Proof. intros [a|]; cbn; auto using tbl_eqb_refl. Qed.
 
